@@ -88,20 +88,7 @@ theorem emittedQuick_no_fault' (ti : TreeInfo) (root : GoNode) (h : treeOk ti ro
 
 /-! ### the hypotheses on the parser's result -/
 
-/-- the writer's slot test for the tables of a raw tree: "group number `g` maps to a slot of the capture array"
-    (`mapCapnum` through the `Caps` the writer builds from `Capnumlist`, below `Capsize`) -/
-def slotOf (t : Parser.RawTree) : Int → Bool :=
-  slotOk (mainCfg (treeInfo false t)) (capsize (treeInfo false t))
-
-/-- **J2 (hypothesis).**  The raw tree has the node shapes the reducer assumes (`Reduce.okRawTree`: known node
-    types with the parser's child counts; a Concatenate / Alternate below the root may be childless). -/
-def RawShapeOk (t : Parser.RawTree) : Bool := okRawTree (ofRaw t.root)
-
-/-- **J3 (hypothesis).**  The capture pre-scan and the main scan agree: group 0 has a slot, every Ref / BackRefCond of
-    the raw tree carries a group number in `[0, MaxInt32]` that maps to a slot of the capture array, every Capture
-    the numbers `(m, n)` in `[-1, MaxInt32]` with the writer's condition (`n = -1`: `m` has a slot; else `m = -1` or
-    `m` has a slot, and `n` has one), every Group has `M = 0`, every option word is below 2⁴⁰. -/
-def PrescanAgrees (t : Parser.RawTree) : Bool := slotOf t 0 && capN (slotOf t) (ofRaw t.root)
+/-! ### the hypotheses on the parser's result: `Reduce.slotOf`, `Reduce.RawShapeOk` (J2), `Reduce.PrescanAgrees` (J3) — Model/ChainHyps.lean -/
 
 theorem mainCfg_rtl (r : Bool) (t : Parser.RawTree) : mainCfg (treeInfo r t) = mainCfg (treeInfo false t) := rfl
 theorem capsize_rtl (r : Bool) (t : Parser.RawTree) : capsize (treeInfo r t) = capsize (treeInfo false t) := rfl
